@@ -167,10 +167,16 @@ theorem compileProg_correct (s : Stmt) (e : Expr) (lc : Nat) (stream : List LFla
 /-! ## the error direction does not hold in the model (and why)
 
 `evalS … = .err ⇒ execL … = .err` would need the same statement for expressions, which the core
-does not have — and which is false for the reference semantics as modelled: reading a local that
-is *assigned at compile time* (it has a committed register) but *not at run time* (the assignment
-was in a branch not taken) is an error of `eval`, whereas the compiled code just reads the
-register. The witness is a statement-level instance of exactly that. -/
+does not have — and which is false for the reference semantics as modelled, for two reasons that
+are visible at statement level:
+
+* reading a local that is *assigned at compile time* (it has a committed register) but *not at run
+  time* (the assignment was in a branch not taken) is an error of `eval`, whereas the compiled code
+  just reads the register (`err_direction_witness`);
+* an operator whose value is unused is not executed (known finding F-C01-3, `compile_node` with
+  `ResultRegister::None`): every expression *statement* — so every loop body made of them — is
+  compiled that way, and the error the operator would raise is lost
+  (`err_direction_witness_unused_operator`). -/
 
 def isErr {α : Type} : Res α → Bool
   | .err => true
@@ -192,6 +198,22 @@ theorem err_direction_witness :
      | some (code, _) => isOk (execL intSem 5 code (fun _ => (-1 : Int)))
      | none => false) = true := by
   refine ⟨by decide, by decide, by decide⟩
+
+/-- `loop` / `1 / 0` / `break` (`/` faults in `intSem`) -/
+def progUnusedOperator : Stmt :=
+  .loopS (.seq (.expr (.bin .div (.int 1) (.int 0))) .brk)
+
+/-- F-C01-3 at statement level: the reference semantics faults in the loop body, the compiled loop
+body does not contain the division at all and the loop ends normally -/
+theorem err_direction_witness_unused_operator :
+    safeS progUnusedOperator = true ∧
+    isErr (evalS intSem 5 progUnusedOperator (fun _ => none)) = true ∧
+    (compileS progUnusedOperator false (mainFrame 0)).map (fun p => flattenL p.1)
+      = some [.jump 1, .jumpBack 2] ∧
+    (match compileS progUnusedOperator false (mainFrame 0) with
+     | some (code, _) => isOk (execL intSem 5 code (fun _ => (-1 : Int)))
+     | none => false) = true := by
+  refine ⟨by decide, by decide, by decide, by decide⟩
 
 /-! ## non-vacuity: programs that satisfy every hypothesis, run at all three levels -/
 
@@ -281,6 +303,15 @@ theorem bridgeS_ok_conv (F : FloatOps) (s : Stmt) (ρ : Env (coreSem F)) (st st'
     ∃ n ρ', evalS (coreSem F) n s ρ = .ok (sig, ρ') ∧ EnvRel ρ' st'.env :=
   stmt_conv F s ρ st st' fuel r sig hw hr hev hs
 
+/-- **bridge, compiler model ⇒ guide, for statements** (`bridgeS_ok`): conversely, a finished
+`evalS (coreSem F)` evaluation is a finished evaluation by the guide's semantics with the same
+signal and a related environment — on this fragment `evalS (coreSem F)` *is* the guide. -/
+theorem bridgeS_ok (F : FloatOps) (s : Stmt) (ρ ρ' : Env (coreSem F)) (st : Core.St)
+    (n : Nat) (sig : Sig) (hw : wfS s = true) (hr : EnvRel ρ st.env)
+    (hev : evalS (coreSem F) n s ρ = .ok (sig, ρ')) :
+    ∃ fuel r st', Core.eval F fuel (toCoreS s) st = (r, st') ∧ sigOf r = some sig ∧ EnvRel ρ' st'.env :=
+  stmt_fwd F s ρ ρ' st n sig hw hr hev
+
 /-- **compileS_correct against the language guide.** Let `s` be a well-formed, `safe` main-block
 statement (loops, `break` / `continue`, `if`, blocks) whose evaluation by the reference semantics of
 the guide terminates (`.ok`) with final state `st'`. If the compiler model compiles it, then the
@@ -337,8 +368,12 @@ def runGuideLoop (s : Stmt) (e : Expr) (lc fuel : Nat) : Option (Val × Val) :=
     | _, _ => none
   | _, _ => none
 
-example : runGuideLoop progCount (.var 1) 2 60 matches some (.num (.i 12), .num (.i 12)) := by decide
+-- (`decide +kernel`: the elaborator's `whnf` is too slow on the guide's mutual evaluator with loops)
+example : runGuideLoop progCount (.var 1) 2 60 matches some (.num (.i 12), .num (.i 12)) := by
+  decide +kernel
 
-example : wfS progNested = true ∧ runGuideLoop progNested (.var 1) 3 80 matches some (.num (.i 3), .num (.i 3)) := by decide
+example : wfS progNested = true ∧
+    runGuideLoop progNested (.var 1) 3 80 matches some (.num (.i 3), .num (.i 3)) := by
+  decide +kernel
 
 end KotoVerif.C01
